@@ -29,3 +29,4 @@ MUTANTS.append(dict(name="signature-writer-wraps-return-annotation", file="core/
 MUTANTS.append(dict(name="content-type-param-memo-keyed-by-content-type-only", file="visit/endpoint/generators/overload_generator.py", expect="R13.7",
     old='        Returns:\n            Dictionary with \'name\' and \'type\' keys\n        """\n', new='        Returns:\n            Dictionary with \'name\' and \'type\' keys\n        """\n        if content_type not in self._content_type_params:\n            self._content_type_params[content_type] = self._map_content_type_param(content_type, schema, context)\n        return self._content_type_params[content_type]\n\n    def _map_content_type_param(self, content_type: str, schema: Any, context: RenderContext) -> dict[str, str]:\n', also=('        self.docstring_generator = EndpointDocstringGenerator(self.schemas)\n', '        self.docstring_generator = EndpointDocstringGenerator(self.schemas)\n        self._content_type_params: dict = {}\n')))
 MUTANTS.append(dict(name="handler-sorts-ir-responses-in-place", file='visit/endpoint/generators/response_handler_generator.py', expect="R13.8", old='        other_responses = [r for r in op.responses if not (processed_primary_success and r == primary_success_ir)]\n', new='        declared_responses = op.responses\n        declared_responses.sort(key=lambda r: (not r.status_code.isdigit(), r.status_code))\n        other_responses = [r for r in declared_responses if not (processed_primary_success and r == primary_success_ir)]\n'))
+MUTANTS.append(dict(name='protocol-nature-reads-a-counter', file='visit/endpoint/endpoint_visitor.py', expect='R13.5', old='                            is_async_generator = "AsyncIterator" in sig_stripped\n', new='                            is_async_generator = "AsyncIterator" in sig_stripped and i > 0\n'))
